@@ -10,9 +10,15 @@
 //               inside the WAL sync callback before the head advances, after the sync before any follower
 //               acked, after the quorum) for rf 1..5: an entry that is in the WAL and committed must be
 //               applied on the leader, in offset order, whatever became of its caller
+//   roll        small WAL segments and padded values: every scenario of this kind crosses several segment
+//               boundaries (where the WAL calls back into the controller: CommitOffsetProvider) while writes
+//               are in flight; with rf <= 2 a trimmer round (wal.VerifDoTrim, retention 1 ms) runs every
+//               millisecond as well
 //   apply-gate  the application of offset n is held inside the KV layer (batch.Commit) while another
 //               follower's ack for n+1 is delivered: n+1 must be observed WAITING (the tracker applies the
 //               released requests one after the other under its mutex)
+// Every call into the controller (Write, Read, GetStatus, Close, offset getters) and into the WAL runs under a
+// watchdog: a call that does not return is the verdict pipeline:controller-call-blocked, never a hang.
 // There is no model for this leg; the specification is evaluated directly on what the leader did:
 // every write succeeds, responses carry the caller's own entry, offsets are distinct, the WAL is
 // contiguous, effects are applied in offset order, commit is monotone and never above head.
@@ -319,7 +325,63 @@ type scenario struct {
 	earlyAck  int64   // offset for the early-ack gate, -1 = none
 	asyncPair bool    // issue the writes back to back through the async API (early-ack scenario)
 	ctxCancel bool    // every write has its own context, cancelled at a stage of the pipeline that cycles over the writes
+	segSize   int32   // WAL segment size (0 = 256 KiB: no rollover in a scenario)
+	valMax    int     // own put's value is padded to 100..valMax bytes (0 = the key only)
+	trim      bool    // a trimmer round every millisecond while the writes run (retention 1 ms)
 	applyGate bool    // hold the application of offset puts-2 while the ack for puts-1 of the other follower is delivered
+}
+
+// ctl is the watchdog-protected access to the controller under test
+type ctl struct {
+	lc     server.LeaderController
+	shard  int64
+	wedged atomic.Bool
+	report func(what string)
+	val    func(key string) []byte
+}
+
+// bounded runs f; false = f did not return within stuckTimeout (or the controller is already known to be wedged)
+func (c *ctl) bounded(what string, f func()) bool {
+	if c.wedged.Load() {
+		return false
+	}
+	done := make(chan struct{})
+	go func() {
+		defer close(done)
+		f()
+	}()
+	select {
+	case <-done:
+		return true
+	case <-time.After(stuckTimeout):
+		if c.wedged.CompareAndSwap(false, true) {
+			c.report(what)
+		}
+		return false
+	}
+}
+
+func (c *ctl) offsets() (int64, int64, bool) {
+	type t struct {
+		h, c int64
+		ok   bool
+	}
+	ch := make(chan t, 1)
+	if !c.bounded("reading the head/commit offsets (controller read lock)", func() {
+		h, cm, ok := server.VerifLeaderOffsets(c.lc)
+		ch <- t{h, cm, ok}
+	}) {
+		return -1, -1, false
+	}
+	x := <-ch
+	return x.h, x.c, x.ok
+}
+
+func (c *ctl) write(ctx context.Context, key string, cb concurrent.Callback[*proto.WriteResponse]) bool {
+	return c.bounded("LeaderController.Write("+key+")", func() {
+		c.lc.Write(ctx, &proto.WriteRequest{Shard: &c.shard, Puts: []*proto.PutRequest{
+			{Key: key, Value: c.val(key)}, {Key: "shared", Value: []byte(key)}}}, cb)
+	})
 }
 
 type writeRes struct {
@@ -333,10 +395,9 @@ type writeRes struct {
 	status  proto.Status
 }
 
-func doWrite(lc server.LeaderController, shard int64, key string) writeRes {
+func doWrite(cl *ctl, key string) writeRes {
 	ch := make(chan writeRes, 1)
-	lc.Write(context.Background(), &proto.WriteRequest{Shard: &shard, Puts: []*proto.PutRequest{
-		{Key: key, Value: []byte(key)}, {Key: "shared", Value: []byte(key)}}},
+	if !cl.write(context.Background(), key,
 		concurrent.NewOnce(func(r *proto.WriteResponse) {
 			res := writeRes{key: key, version: -1, sharedV: -1, sharedM: -1}
 			if len(r.Puts) == 2 && r.Puts[0].Version != nil && r.Puts[1].Version != nil {
@@ -348,7 +409,9 @@ func doWrite(lc server.LeaderController, shard int64, key string) writeRes {
 				res.err = fmt.Errorf("malformed response %v", r)
 			}
 			ch <- res
-		}, func(err error) { ch <- writeRes{key: key, err: err} }))
+		}, func(err error) { ch <- writeRes{key: key, err: err} })) {
+		return writeRes{key: key, stuck: true}
+	}
 	select {
 	case r := <-ch:
 		return r
@@ -375,8 +438,15 @@ func runScenario(o *hx.Out, sc scenario, tmpRoot string, idx int) {
 		g.watchKey = fmt.Sprintf("w0-%d", sc.puts-1)
 		kvf = &gateKVFactory{Factory: kvInner, g: g}
 	}
-	wf := &gateFactory{inner: wal.NewWalFactory(&wal.FactoryOptions{BaseWalDir: dir + "/wal", SegmentSize: 256 * 1024,
-		Retention: time.Hour, SyncData: sc.syncData}), g: g}
+	segSize, retention := int32(256*1024), time.Hour
+	if sc.segSize > 0 {
+		segSize = sc.segSize
+	}
+	if sc.trim {
+		retention = time.Millisecond
+	}
+	wf := &gateFactory{inner: wal.NewWalFactory(&wal.FactoryOptions{BaseWalDir: dir + "/wal", SegmentSize: segSize,
+		Retention: retention, SyncData: sc.syncData}), g: g}
 	prov := &provider{followers: map[string]*follower{}}
 	fmap := map[string]*proto.EntryId{}
 	for i := uint32(1); i < sc.rf; i++ {
@@ -405,8 +475,57 @@ func runScenario(o *hx.Out, sc scenario, tmpRoot string, idx int) {
 	}
 
 	viol := func(sig, det string) {
-		o.Violation(sig, fmt.Sprintf("scenario %s (rf=%d syncData=%v writers=%d puts=%d holdAt=%v earlyAck=%d): %s",
-			sc.name, sc.rf, sc.syncData, sc.writers, sc.puts, sc.holdAt, sc.earlyAck, det))
+		o.Violation(sig, fmt.Sprintf("scenario %s (rf=%d syncData=%v writers=%d puts=%d holdAt=%v earlyAck=%d walSegment=%d valMax=%d trim=%v): %s",
+			sc.name, sc.rf, sc.syncData, sc.writers, sc.puts, sc.holdAt, sc.earlyAck, segSize, sc.valMax, sc.trim, det))
+	}
+
+	cl := &ctl{lc: lc, shard: shard}
+	cl.report = func(what string) {
+		viol("pipeline:controller-call-blocked", fmt.Sprintf("%s did not return within %v (segment size %d, values up to %d bytes, trim=%v)", what, stuckTimeout, segSize, sc.valMax, sc.trim))
+	}
+	cl.val = func(key string) []byte {
+		if sc.valMax <= 100 {
+			return []byte(key)
+		}
+		h := 0
+		for _, c := range key {
+			h = h*131 + int(c)
+		}
+		n := 100 + (h&0x7fffffff)%(sc.valMax-100)
+		b := make([]byte, n)
+		copy(b, key)
+		for i := len(key); i < n; i++ {
+			b[i] = byte('a' + i%26)
+		}
+		return b
+	}
+	wait := func(cond func() bool, d time.Duration) bool {
+		return waitFor(func() bool { return cl.wedged.Load() || cond() }, d) && !cl.wedged.Load()
+	}
+	// trimmer rounds while the writes run
+	trimStop := make(chan struct{})
+	var trimWg sync.WaitGroup
+	trimRounds := 0
+	if sc.trim {
+		trimWg.Add(1)
+		go func() {
+			defer trimWg.Done()
+			for {
+				select {
+				case <-trimStop:
+					return
+				default:
+				}
+				if cl.wedged.Load() {
+					return
+				}
+				if !cl.bounded("a WAL trimmer round (wal.VerifDoTrim -> CommitOffsetProvider)", func() { _ = wal.VerifDoTrim(wf.w.Wal) }) {
+					return
+				}
+				trimRounds++
+				time.Sleep(time.Millisecond)
+			}
+		}()
 	}
 
 	// commit / head sampler
@@ -424,7 +543,7 @@ func runScenario(o *hx.Out, sc scenario, tmpRoot string, idx int) {
 				return
 			default:
 			}
-			h, c, ok := server.VerifLeaderOffsets(lc)
+			h, c, ok := cl.offsets()
 			if ok {
 				samples++
 				if !reported && c < prev {
@@ -433,7 +552,7 @@ func runScenario(o *hx.Out, sc scenario, tmpRoot string, idx int) {
 				}
 				// head is read before commit inside the accessor, so commit may legitimately be newer than head by the
 				// time it is read: only compare against a head sampled AFTER the commit
-				h2, _, _ := server.VerifLeaderOffsets(lc)
+				h2, _, _ := cl.offsets()
 				if !reported && c > h2 && c > h {
 					viol("pipeline:commit-above-head", fmt.Sprintf("commit %d head %d", c, h2))
 					reported = true
@@ -460,6 +579,10 @@ func runScenario(o *hx.Out, sc scenario, tmpRoot string, idx int) {
 		nextOff := int64(0) // offset the next admitted write gets
 		for i := 0; i < sc.puts; i++ {
 			key := fmt.Sprintf("w0-%d", i)
+			if cl.wedged.Load() {
+				results = append(results, writeRes{key: key, stuck: true})
+				continue
+			}
 			stage := stages[(i+idx)%len(stages)]
 			ctxSchedule += fmt.Sprintf("%s:%s ", key, stage)
 			ctx, cancel := context.WithCancel(context.Background())
@@ -472,15 +595,14 @@ func runScenario(o *hx.Out, sc scenario, tmpRoot string, idx int) {
 				g.mu.Unlock()
 			}
 			ch := make(chan writeRes, 1)
-			lc.Write(ctx, &proto.WriteRequest{Shard: &shard, Puts: []*proto.PutRequest{
-				{Key: key, Value: []byte(key)}, {Key: "shared", Value: []byte(key)}}},
+			cl.write(ctx, key,
 				concurrent.NewOnce(func(r *proto.WriteResponse) {
 					ch <- writeRes{key: key, version: r.Puts[0].Version.VersionId, sharedV: r.Puts[1].Version.VersionId,
 						sharedM: r.Puts[1].Version.ModificationsCount, status: r.Puts[0].Status}
 				}, func(err error) { ch <- writeRes{key: key, err: err} }))
 			// admitted? (the entry reaches the WAL and the head offset) - or refused at once
 			var early *writeRes
-			admitted := waitFor(func() bool {
+			admitted := wait(func() bool {
 				if early == nil {
 					select {
 					case r := <-ch:
@@ -488,10 +610,10 @@ func runScenario(o *hx.Out, sc scenario, tmpRoot string, idx int) {
 					default:
 					}
 				}
-				h, _, _ := server.VerifLeaderOffsets(lc)
+				h, _, _ := cl.offsets()
 				return h >= nextOff || (early != nil && early.err != nil)
 			}, stuckTimeout)
-			h, _, _ := server.VerifLeaderOffsets(lc)
+			h, _, _ := cl.offsets()
 			if admitted && h >= nextOff {
 				if stage == "after-sync-before-quorum" {
 					cancel()
@@ -499,7 +621,7 @@ func runScenario(o *hx.Out, sc scenario, tmpRoot string, idx int) {
 				off := nextOff
 				nextOff++
 				for _, f := range fs {
-					if waitFor(func() bool { return f.hasReceived(off) }, stuckTimeout) {
+					if wait(func() bool { return f.hasReceived(off) }, stuckTimeout) {
 						f.ack(off)
 					}
 				}
@@ -526,8 +648,7 @@ func runScenario(o *hx.Out, sc scenario, tmpRoot string, idx int) {
 		issue := func(i int) chan writeRes {
 			key := fmt.Sprintf("w0-%d", i)
 			ch := make(chan writeRes, 1)
-			lc.Write(context.Background(), &proto.WriteRequest{Shard: &shard, Puts: []*proto.PutRequest{
-				{Key: key, Value: []byte(key)}, {Key: "shared", Value: []byte(key)}}},
+			cl.write(context.Background(), key,
 				concurrent.NewOnce(func(r *proto.WriteResponse) {
 					ch <- writeRes{key: key, version: r.Puts[0].Version.VersionId, sharedV: r.Puts[1].Version.VersionId,
 						sharedM: r.Puts[1].Version.ModificationsCount, status: r.Puts[0].Status}
@@ -546,7 +667,7 @@ func runScenario(o *hx.Out, sc scenario, tmpRoot string, idx int) {
 		// warm-up writes 0..n-1, acknowledged by both followers one after the other
 		for i := int64(0); i < n && realised; i++ {
 			ch := issue(int(i))
-			realised = waitFor(func() bool { return fa.hasReceived(i) && fb.hasReceived(i) }, 3*time.Second)
+			realised = wait(func() bool { return fa.hasReceived(i) && fb.hasReceived(i) }, 3*time.Second)
 			fa.ack(i)
 			fb.ack(i)
 			collect(int(i), ch)
@@ -554,8 +675,8 @@ func runScenario(o *hx.Out, sc scenario, tmpRoot string, idx int) {
 		// two writes in flight: n and n+1, synced on the leader, sent to both followers, nobody acked yet
 		chX := issue(int(n))
 		chY := issue(int(n + 1))
-		realised = realised && waitFor(func() bool {
-			h, _, _ := server.VerifLeaderOffsets(lc)
+		realised = realised && wait(func() bool {
+			h, _, _ := cl.offsets()
 			return h >= n+1 && fa.hasReceived(n+1) && fb.hasReceived(n+1)
 		}, 3*time.Second)
 		schedule := fmt.Sprintf("rf=3, offsets %d and %d appended, synced and sent to f1,f2; f1 acks %d => ProcessWrite(%d) starts and is held in batch.Commit; f2 acks %d,%d",
@@ -608,8 +729,7 @@ func runScenario(o *hx.Out, sc scenario, tmpRoot string, idx int) {
 						rmu.Unlock()
 					}
 				}()
-				lc.Write(context.Background(), &proto.WriteRequest{Shard: &shard, Puts: []*proto.PutRequest{
-					{Key: key, Value: []byte(key)}, {Key: "shared", Value: []byte(key)}}},
+				cl.write(context.Background(), key,
 					concurrent.NewOnce(func(r *proto.WriteResponse) {
 						ch <- writeRes{key: key, version: r.Puts[0].Version.VersionId, sharedV: r.Puts[1].Version.VersionId,
 							sharedM: r.Puts[1].Version.ModificationsCount, status: r.Puts[0].Status}
@@ -624,7 +744,7 @@ func runScenario(o *hx.Out, sc scenario, tmpRoot string, idx int) {
 				defer wg.Done()
 				<-start
 				for i := 0; i < sc.puts; i++ {
-					r := doWrite(lc, shard, fmt.Sprintf("w%d-%d", w, i))
+					r := doWrite(cl, fmt.Sprintf("w%d-%d", w, i))
 					rmu.Lock()
 					results = append(results, r)
 					rmu.Unlock()
@@ -637,10 +757,13 @@ func runScenario(o *hx.Out, sc scenario, tmpRoot string, idx int) {
 		close(start)
 	}
 	wg.Wait()
+	close(trimStop)
+	trimWg.Wait()
+	o.CountN("trim-rounds", trimRounds)
 	// let the followers' last acks land, then sample the final offsets
 	var head, commit int64
 	for i := 0; i < 400; i++ {
-		head, commit, _ = server.VerifLeaderOffsets(lc)
+		head, commit, _ = cl.offsets()
 		if commit >= int64(total-1) {
 			break
 		}
@@ -653,7 +776,15 @@ func runScenario(o *hx.Out, sc scenario, tmpRoot string, idx int) {
 	var walKeys []string
 	var walOffsets []int64
 	offsetOf := map[string]int64{}
-	if rd, err := wf.w.Wal.NewReader(wal.InvalidOffset); err == nil {
+	walFirst := int64(0)
+	cl.bounded("reading the leader WAL (WAL lock)", func() {
+		if f := wf.w.Wal.FirstOffset(); f > 0 {
+			walFirst = f
+		}
+		rd, err := wf.w.Wal.NewReader(walFirst - 1)
+		if err != nil {
+			return
+		}
 		for rd.HasNext() {
 			e, err := rd.ReadNext()
 			if err != nil {
@@ -672,9 +803,11 @@ func runScenario(o *hx.Out, sc scenario, tmpRoot string, idx int) {
 			offsetOf[k] = e.Offset
 		}
 		_ = rd.Close()
-	}
+	})
+	retained := total - int(walFirst) // entries trimmed away are not inspected
+	o.CountN("wal-entries-trimmed-while-writing", int(walFirst))
 	for i, off := range walOffsets {
-		if off != int64(i) {
+		if off != walFirst+int64(i) {
 			viol("pipeline:wal-gap", fmt.Sprintf("WAL entry #%d has offset %d", i, off))
 			break
 		}
@@ -707,6 +840,9 @@ func runScenario(o *hx.Out, sc scenario, tmpRoot string, idx int) {
 				viol("pipeline:write-failed-with-healthy-quorum", fmt.Sprintf("write %s: status %v", r.key, r.status))
 			}
 			off, inWal := offsetOf[r.key]
+			if !inWal && (walFirst > 0 || cl.wedged.Load()) {
+				continue // trimmed away / the WAL of a wedged controller cannot be read
+			}
 			if !inWal {
 				viol("pipeline:response-not-own", fmt.Sprintf("write %s was answered (version %d) but is not in the WAL", r.key, r.version))
 				continue
@@ -724,11 +860,11 @@ func runScenario(o *hx.Out, sc scenario, tmpRoot string, idx int) {
 	if nstuck > 0 {
 		viol("pipeline:write-stuck-with-healthy-quorum", fmt.Sprintf("%d of %d writes got no response within %v although every follower acknowledged everything it was sent", nstuck, total, stuckTimeout))
 	}
-	if nstuck == 0 && len(walOffsets) != total-nerr && nerr == 0 && ncancelled == 0 {
-		viol("pipeline:wal-gap", fmt.Sprintf("%d writes were answered, the WAL holds %d entries (offsets %v...)", total, len(walOffsets), head5(walOffsets)))
+	if nstuck == 0 && len(walOffsets) != retained-nerr && nerr == 0 && ncancelled == 0 && !cl.wedged.Load() {
+		viol("pipeline:wal-gap", fmt.Sprintf("%d writes were answered, the WAL holds %d entries from offset %d on (offsets %v...)", total, len(walOffsets), walFirst, head5(walOffsets)))
 	}
-	if nerr > 0 && len(walOffsets) < total-nerr {
-		viol("pipeline:wal-gap", fmt.Sprintf("%d writes succeeded, the WAL holds only %d entries", total-nerr, len(walOffsets)))
+	if nerr > 0 && len(walOffsets) < retained-nerr && !cl.wedged.Load() {
+		viol("pipeline:wal-gap", fmt.Sprintf("%d writes succeeded, the WAL holds only %d entries from offset %d on", total-nerr, len(walOffsets), walFirst))
 	}
 	if sc.ctxCancel {
 		// every entry of the WAL up to the commit offset must have been applied on the leader: readable, and with the
@@ -742,7 +878,7 @@ func runScenario(o *hx.Out, sc scenario, tmpRoot string, idx int) {
 			if off > commit {
 				continue
 			}
-			st, ver, rerr := readKey(lc, shard, k)
+			st, ver, rerr := readKey(cl, k)
 			switch {
 			case rerr != nil:
 				viol("pipeline:committed-entry-never-applied", fmt.Sprintf("schedule [%s]: reading %s (WAL offset %d <= commit %d) failed: %v", ctxSchedule, k, off, commit, rerr))
@@ -786,19 +922,31 @@ func runScenario(o *hx.Out, sc scenario, tmpRoot string, idx int) {
 	if nerr > 0 || nstuck > 0 {
 		verdict = fmt.Sprintf("failed=%d stuck=%d", nerr, nstuck)
 	}
-	o.Case("pipe", fmt.Sprintf("%s rf=%d sync=%v writers=%d puts=%d hold=%v early=%d", sc.name, sc.rf, sc.syncData, sc.writers, sc.puts, sc.holdAt, sc.earlyAck),
+	o.Case("pipe", fmt.Sprintf("%s rf=%d sync=%v writers=%d puts=%d hold=%v early=%d seg=%d valmax=%d trim=%v", sc.name, sc.rf, sc.syncData, sc.writers, sc.puts, sc.holdAt, sc.earlyAck, segSize, sc.valMax, sc.trim),
 		fmt.Sprintf("%s writes=%d wal=%d head=%d commit=%d", verdict, total, len(walOffsets), head, commit),
 		fmt.Sprintf("%s/%d/%v/%d/%d/%d", sc.name, sc.rf, sc.syncData, sc.writers, sc.puts, idx))
 
-	_ = lc.Close()
-	_ = kvInner.Close()
-	_ = wf.Close()
+	cl.bounded("LeaderController.GetStatus", func() { _, _ = lc.GetStatus(&proto.GetStatusRequest{Shard: shard}) })
+	cl.bounded("LeaderController.Close", func() { _ = lc.Close() })
+	// on a wedged controller the resources are leaked (the process ends soon), never waited for
+	cl.bounded("closing the KV factory", func() { _ = kvInner.Close() })
+	cl.bounded("closing the WAL factory", func() { _ = wf.Close() })
+	if cl.wedged.Load() {
+		wedgedScenarios[sc.name] = true
+	}
 }
 
+// scenario kinds on which the controller wedged once are not run again in the same process (each costs a watchdog timeout)
+var wedgedScenarios = map[string]bool{}
+
 // readKey reads one key through the leader's public read path
-func readKey(lc server.LeaderController, shard int64, key string) (proto.Status, int64, error) {
+func readKey(cl *ctl, key string) (proto.Status, int64, error) {
 	ch := make(chan *entity.TWithError[*proto.GetResponse], 4)
-	lc.Read(context.Background(), &proto.ReadRequest{Shard: &shard, Gets: []*proto.GetRequest{{Key: key}}}, concurrent.ReadFromStreamCallback(ch))
+	if !cl.bounded("LeaderController.Read("+key+")", func() {
+		cl.lc.Read(context.Background(), &proto.ReadRequest{Shard: &cl.shard, Gets: []*proto.GetRequest{{Key: key}}}, concurrent.ReadFromStreamCallback(ch))
+	}) {
+		return -1, -1, errors.New("the controller does not answer")
+	}
 	var st proto.Status = -1
 	var ver int64 = -1
 	deadline := time.After(stuckTimeout)
@@ -845,7 +993,14 @@ func main() {
 		scale = 1
 	}
 	idx := 0
-	run := func(sc scenario) { idx++; runScenario(o, sc, tmp, idx) }
+	run := func(sc scenario) {
+		idx++
+		if wedgedScenarios[sc.name] {
+			o.Count("skipped(after a wedged controller in this kind):" + sc.name)
+			return
+		}
+		runScenario(o, sc, tmp, idx)
+	}
 	for round := 0; round < scale; round++ {
 		ws := []int{2, 3, 4, 8, 16}
 		// free-running concurrency
@@ -853,6 +1008,14 @@ func main() {
 		run(scenario{name: "free-rf1-sync", rf: 1, syncData: true, writers: hx.Pick(r, ws), puts: 10 + r.Intn(20), earlyAck: -1})
 		run(scenario{name: "free-rf3", rf: 3, syncData: r.Bool(), writers: hx.Pick(r, ws), puts: 10 + r.Intn(30), earlyAck: -1})
 		run(scenario{name: "free-rf2", rf: 2, syncData: r.Bool(), writers: hx.Pick(r, ws), puts: 10 + r.Intn(20), earlyAck: -1})
+		// the same over a WAL that rolls over every few entries (and is trimmed while the writes run, rf <= 2)
+		segs := []int32{8 * 1024, 16 * 1024, 32 * 1024}
+		run(scenario{name: "roll-rf1", rf: 1, syncData: r.Bool(), writers: hx.Pick(r, ws), puts: 12 + r.Intn(20), earlyAck: -1,
+			segSize: hx.Pick(r, segs), valMax: 600 + r.Intn(2400), trim: true})
+		run(scenario{name: "roll-rf2", rf: 2, syncData: r.Bool(), writers: hx.Pick(r, ws), puts: 10 + r.Intn(16), earlyAck: -1,
+			segSize: hx.Pick(r, segs), valMax: 600 + r.Intn(2400), trim: true})
+		run(scenario{name: "roll-rf3", rf: 3, syncData: r.Bool(), writers: hx.Pick(r, ws), puts: 10 + r.Intn(16), earlyAck: -1,
+			segSize: hx.Pick(r, segs), valMax: 600 + r.Intn(2400)})
 		// forced: a writer is held between allocation and append
 		h1 := int64(1 + r.Intn(4))
 		run(scenario{name: "o1-gate", rf: 1, syncData: r.Bool(), writers: 2 + r.Intn(3), puts: 6 + r.Intn(6), holdAt: []int64{h1, h1 + 3 + int64(r.Intn(4))}, earlyAck: -1})
@@ -863,7 +1026,11 @@ func main() {
 		// forced: offset n is being applied while the other follower acknowledges n+1
 		// forced: the caller's context is cancelled at every stage of the pipeline, rf 1..5
 		for rf := uint32(1); rf <= 5; rf++ {
-			run(scenario{name: "ctx-cancel", rf: rf, syncData: r.Bool(), writers: 1, puts: 6 + r.Intn(6), earlyAck: -1, ctxCancel: true})
+			sc := scenario{name: "ctx-cancel", rf: rf, syncData: r.Bool(), writers: 1, puts: 6 + r.Intn(6), earlyAck: -1, ctxCancel: true}
+			if rf%2 == 1 {
+				sc.name, sc.segSize, sc.valMax, sc.puts = "ctx-cancel-roll", 8*1024, 3000, 10+r.Intn(8)
+			}
+			run(sc)
 		}
 		run(scenario{name: "apply-gate", rf: 3, syncData: r.Bool(), writers: 1, puts: 2 + r.Intn(4), earlyAck: -1, applyGate: true})
 	}
